@@ -38,6 +38,9 @@ type lbFinding struct {
 	Same    bool      // both facts at the same Return
 	HeldRet *ssa.Return
 	FreeRet *ssa.Return
+	// all returns at which the lock may still be held / cannot be held
+	HeldRets []*ssa.Return
+	FreeRets []*ssa.Return
 }
 
 // lbRetPos: a usable position for a Return (the implicit return at the end of
@@ -98,10 +101,16 @@ func lockBalance(e *LockEngine, fns []*ssa.Function) lbResult {
 		sort.Strings(ids)
 		for _, id := range ids {
 			var held, free *ssa.Return
+			var heldAll, freeAll []*ssa.Return
 			same := false
 			for _, r := range rets {
 				_, mayHeld := may[r][id]
 				_, mustHeld := e.At(r)[id]
+				if mayHeld {
+					heldAll = append(heldAll, r)
+				} else {
+					freeAll = append(freeAll, r)
+				}
 				if mayHeld && !mustHeld && !same {
 					held, free, same = r, r, true
 				}
@@ -113,7 +122,7 @@ func lockBalance(e *LockEngine, fns []*ssa.Function) lbResult {
 				}
 			}
 			if held != nil && free != nil {
-				res.Findings = append(res.Findings, lbFinding{Fn: fn, Lock: id, HeldAt: lbRetPos(held), OtherAt: lbRetPos(free), Same: same, HeldRet: held, FreeRet: free})
+				res.Findings = append(res.Findings, lbFinding{Fn: fn, Lock: id, HeldAt: lbRetPos(held), OtherAt: lbRetPos(free), Same: same, HeldRet: held, FreeRet: free, HeldRets: heldAll, FreeRets: freeAll})
 			}
 		}
 	}
